@@ -10,7 +10,9 @@ import (
 	"errors"
 	"fmt"
 	"math/big"
+	"os"
 	"sort"
+	"strconv"
 	"sync"
 	"time"
 
@@ -72,11 +74,16 @@ type Case struct {
 	Init   []Entry `json:"init"`
 	Faults []bool  `json:"faults"` // one entry per store call, in call order; true = that call fails
 	Ops    []Op    `json:"ops"`
+	// concurrent cases (conc.go): goroutines sharing ONE PropStore, see type Thread
+	Conc *Conc `json:"conc,omitempty"`
+	// race child (race.go, thorough tier): this many generated concurrent cases under the race detector
+	Race int `json:"race,omitempty"`
 }
 
 type OpObs struct {
 	Stuck    bool    `json:"stuck,omitempty"`
 	Emitted  []Dep   `json:"emitted,omitempty"`
+	RetryErr string  `json:"retry_err,omitempty"` // the retry entry point returned an error (whatever it re-emitted all the same is in Emitted)
 	Err      bool    `json:"err,omitempty"`
 	Selected []Key   `json:"selected,omitempty"`
 	Failed   []Key   `json:"failed,omitempty"` // keys whose store call failed during the op, most recent first
@@ -85,6 +92,12 @@ type OpObs struct {
 type Obs struct {
 	Ops       []OpObs `json:"ops"`
 	Confirmed int     `json:"confirmed_stuck,omitempty"` // stuck calls confirmed by a real blocked call
+	// concurrent cases: per goroutine its own history (store = the keys it can name), the whole store
+	// at the end, and the number of store calls / entries with a key no goroutine of the case can name
+	Threads [][]OpObs `json:"threads,omitempty"`
+	Final   []Entry   `json:"final,omitempty"`
+	Stray   int       `json:"stray,omitempty"`
+	Race    *RaceObs  `json:"race,omitempty"`
 }
 
 // ---- fault-injecting key-value store ----------------------------------------------------------
@@ -266,59 +279,64 @@ func drain(ch chan []*message.Message) [][]*message.Message {
 	}
 }
 
-func doRetry(ps *store.PropStore, op Op) []Dep {
+// doRetry makes one retry request through the chosen entry point and returns what was re-emitted:
+// the messages pushed to the message channel (for "filter": the returned slice, which every caller
+// drops when the error is not nil).  An error of the entry point is an observation, not a crash:
+// the handlers then push nothing, i.e. the whole batch is withheld, and the judge decides.
+func doRetry(ps *store.PropStore, op Op) ([]Dep, string) {
 	ch := make(chan []*message.Message, 64)
 	retryMsg := &message.Message{Source: op.Dest, Destination: op.Src, Data: retry.RetryMessageData{
 		SourceDomainID: op.Src, DestinationDomainID: op.Dest, BlockHeight: big.NewInt(10), ResourceID: resID(op.Res)}}
 	var batches [][]*message.Message
+	var err error
 	switch op.Path {
 	case "filter":
-		out, err := retry.FilterDeposits(ps, depMap(op.Src, op.Deps), resID(op.Res), op.Dest)
-		if err != nil {
-			panic(err)
+		var out []*message.Message
+		out, err = retry.FilterDeposits(ps, depMap(op.Src, op.Deps), resID(op.Res), op.Dest)
+		if err == nil {
+			batches = [][]*message.Message{out}
 		}
-		batches = [][]*message.Message{out}
 	case "evm":
 		h := evmexec.NewRetryMessageHandler(depProc2{op.Src, op.Deps}, evmClient{}, ps, big.NewInt(5), ch)
-		if _, err := h.HandleMessage(retryMsg); err != nil {
-			panic(err)
-		}
+		_, err = h.HandleMessage(retryMsg)
 		batches = drain(ch)
 	case "btc":
 		h := btcexec.NewRetryMessageHandler(depProc1{op.Src, op.Deps}, btcFetcher{}, big.NewInt(5), ps, ch)
-		if _, err := h.HandleMessage(retryMsg); err != nil {
-			panic(err)
-		}
+		_, err = h.HandleMessage(retryMsg)
 		batches = drain(ch)
 	case "sub":
 		h := subexec.NewRetryMessageHandler(depProc2{op.Src, op.Deps}, subFetcher{}, ps, ch)
-		if _, err := h.HandleMessage(retryMsg); err != nil {
-			panic(err)
-		}
+		_, err = h.HandleMessage(retryMsg)
 		batches = drain(ch)
 	case "v1":
 		h := eventHandlers.NewRetryV1EventHandler(zerolog.Nop().With(), v1Listener{op.Deps}, v1DepositHandler{}, ps,
 			common.Address{}, op.Src, big.NewInt(5), ch)
-		if err := h.HandleEvents(big.NewInt(10), big.NewInt(10)); err != nil {
-			panic(err)
-		}
+		err = h.HandleEvents(big.NewInt(10), big.NewInt(10))
 		batches = drain(ch)
 		// one batch per destination domain, sent in map order: canonical order = by domain
-		sort.SliceStable(batches, func(i, j int) bool { return batches[i][0].Destination < batches[j][0].Destination })
+		sort.SliceStable(batches, func(i, j int) bool {
+			return len(batches[i]) > 0 && len(batches[j]) > 0 && batches[i][0].Destination < batches[j][0].Destination
+		})
 	default:
 		panic("unknown path " + op.Path)
 	}
 	var out []Dep
 	for _, b := range batches {
 		for _, m := range b {
-			d := m.Data.(transfer.TransferMessageData)
-			if m.Source != op.Src {
-				panic("emitted message with a foreign source")
+			d, ok := m.Data.(transfer.TransferMessageData)
+			if !ok || m.Source != op.Src {
+				// not a deposit of the retried block at all (no block holds a deposit for domain 0):
+				// the judge rejects it as "re-emitted although not found there"
+				out = append(out, Dep{})
+				continue
 			}
 			out = append(out, Dep{Dst: m.Destination, Nonce: d.DepositNonce, Res: d.ResourceId[0]})
 		}
 	}
-	return out
+	if err != nil {
+		return out, err.Error()
+	}
+	return out, ""
 }
 
 var confirmBudget = 12
@@ -352,53 +370,78 @@ func guarded(e *btcexec.Executor, confirmed *int, f func()) (stuck bool) {
 	}
 }
 
+// opDriver makes the operations of one history on the real code: the store, one BTC executor and
+// the deliveries made so far.  [call] runs a call that takes the executor's propMutex and says
+// whether it got stuck.
+type opDriver struct {
+	ps        *store.PropStore
+	e         *btcexec.Executor
+	delivered [][]*btcexec.BtcTransferProposal
+	call      func(f func()) (stuck bool)
+}
+
+func (d *opDriver) do(op Op) OpObs {
+	var o OpObs
+	switch op.Kind {
+	case "retry":
+		o.Emitted, o.RetryErr = doRetry(d.ps, op)
+	case "deliver":
+		props := make([]*proposal.Proposal, len(op.Keys))
+		for i, k := range op.Keys {
+			props[i] = proposal.NewProposal(k.Src, k.Dst, btcexec.BtcTransferProposalData{
+				Amount: 1000, Recipient: "r", DepositNonce: k.Nonce, ResourceId: resID(1)}, "m", transfer.TransferProposalType)
+		}
+		var sel []*btcexec.BtcTransferProposal
+		var err error
+		o.Stuck = d.call(func() { sel, err = d.e.VerifProposalsForExecution(props, "m") })
+		if !o.Stuck {
+			if err != nil {
+				o.Err = true
+			} else {
+				d.delivered = append(d.delivered, sel)
+				for _, p := range sel {
+					o.Selected = append(o.Selected, Key{p.Source, p.Destination, p.Data.DepositNonce})
+				}
+			}
+		}
+	case "execok", "execfail":
+		var batch []*btcexec.BtcTransferProposal
+		if op.Batch >= 0 && op.Batch < len(d.delivered) {
+			batch = d.delivered[op.Batch]
+		}
+		status := store.ExecutedProp
+		if op.Kind == "execfail" {
+			status = store.FailedProp
+		}
+		o.Stuck = d.call(func() { d.e.VerifStoreProposalsStatus(batch, status) })
+	default:
+		panic("unknown op " + op.Kind)
+	}
+	return o
+}
+
+func newExecutor(ps *store.PropStore) *btcexec.Executor {
+	return btcexec.NewExecutor(ps, nil, nil, nil, nil, nil, nil, nil, chaincfg.TestNet3Params, &sync.RWMutex{}, nil)
+}
+
 func run(c Case) Obs {
+	if c.Conc != nil {
+		return runConc(c)
+	}
+	if c.Race > 0 {
+		return runRace(c)
+	}
 	kv := &faultKV{m: map[string][]byte{}, faults: c.Faults}
 	for _, e := range c.Init {
 		kv.m[fmt.Sprintf(store.KEY, e.Src, e.Dst, e.Nonce)] = []byte(e.Status)
 	}
 	ps := store.NewPropStore(kv)
-	e := btcexec.NewExecutor(ps, nil, nil, nil, nil, nil, nil, nil, chaincfg.TestNet3Params, &sync.RWMutex{}, nil)
-	var delivered [][]*btcexec.BtcTransferProposal
 	var obs Obs
+	d := &opDriver{ps: ps, e: newExecutor(ps)}
+	d.call = func(f func()) bool { return guarded(d.e, &obs.Confirmed, f) }
 	for _, op := range c.Ops {
 		kv.failed = nil
-		var o OpObs
-		switch op.Kind {
-		case "retry":
-			o.Emitted = doRetry(ps, op)
-		case "deliver":
-			props := make([]*proposal.Proposal, len(op.Keys))
-			for i, k := range op.Keys {
-				props[i] = proposal.NewProposal(k.Src, k.Dst, btcexec.BtcTransferProposalData{
-					Amount: 1000, Recipient: "r", DepositNonce: k.Nonce, ResourceId: resID(1)}, "m", transfer.TransferProposalType)
-			}
-			var sel []*btcexec.BtcTransferProposal
-			var err error
-			o.Stuck = guarded(e, &obs.Confirmed, func() { sel, err = e.VerifProposalsForExecution(props, "m") })
-			if !o.Stuck {
-				if err != nil {
-					o.Err = true
-				} else {
-					delivered = append(delivered, sel)
-					for _, p := range sel {
-						o.Selected = append(o.Selected, Key{p.Source, p.Destination, p.Data.DepositNonce})
-					}
-				}
-			}
-		case "execok", "execfail":
-			var batch []*btcexec.BtcTransferProposal
-			if op.Batch >= 0 && op.Batch < len(delivered) {
-				batch = delivered[op.Batch]
-			}
-			status := store.ExecutedProp
-			if op.Kind == "execfail" {
-				status = store.FailedProp
-			}
-			o.Stuck = guarded(e, &obs.Confirmed, func() { e.VerifStoreProposalsStatus(batch, status) })
-		default:
-			panic("unknown op " + op.Kind)
-		}
+		o := d.do(op)
 		o.Failed = append([]Key(nil), kv.failed...)
 		o.Store = kv.snapshot()
 		obs.Ops = append(obs.Ops, o)
@@ -570,13 +613,20 @@ func gen(r *vgen.Rng, tier string) []Case {
 		num := vgen.Pick(r, []int{0, 1, 1, 2})
 		out = append(out, genHistory(r, r.Range(1, 40), num, 12))
 	}
+	// 5. goroutines sharing one PropStore (conc.go)
+	out = append(out, genConcCases(r, mult)...)
+	if tier == "thorough" {
+		out = append(out, Case{Class: "race", Race: 150})
+	}
 	return out
 }
 
 // ---- Coq printing --------------------------------------------------------------------------------
 
-func n(x uint64) string  { return vgen.N(x) }
-func coqKey(k Key) string { return "(" + n(uint64(k.Src)) + ", " + n(uint64(k.Dst)) + ", " + n(k.Nonce) + ")" }
+func n(x uint64) string { return vgen.N(x) }
+func coqKey(k Key) string {
+	return "(" + n(uint64(k.Src)) + ", " + n(uint64(k.Dst)) + ", " + n(k.Nonce) + ")"
+}
 func coqDep(d Dep) string {
 	return "mkDep " + n(uint64(d.Dst)) + " " + n(d.Nonce) + " " + n(uint64(d.Res))
 }
@@ -628,6 +678,12 @@ func coqObs(op Op, o OpObs) string {
 }
 
 func coq(c Case, o Obs) string {
+	if c.Conc != nil {
+		return coqConc(c, o)
+	}
+	if c.Race > 0 {
+		return coqRace(o)
+	}
 	obs := make([]string, len(c.Ops))
 	for i := range c.Ops {
 		obs[i] = coqObs(c.Ops[i], o.Ops[i])
@@ -637,6 +693,11 @@ func coq(c Case, o Obs) string {
 }
 
 func main() {
+	if v := os.Getenv(raceEnv); v != "" {
+		n, _ := strconv.Atoi(v)
+		raceChild(n)
+		return
+	}
 	vgen.Main(vgen.Spec[Case, Obs]{
 		Property:  "C17",
 		RunModule: "C17",
@@ -646,6 +707,21 @@ func main() {
 		Kind:      func(c Case) string { return c.Class },
 		NonTrivial: func(c Case, o Obs) bool {
 			// non-trivial: some operation made at least one store call (something was looked up or written)
+			if c.Race > 0 {
+				return o.Race != nil && o.Race.Ran
+			}
+			if c.Conc != nil {
+				busy := 0
+				for _, th := range c.Conc.Threads {
+					for _, op := range th.Ops {
+						if (op.Kind == "retry" && len(op.Deps) > 0) || (op.Kind == "deliver" && len(op.Keys) > 0) {
+							busy++
+							break
+						}
+					}
+				}
+				return busy >= 2 // at least two goroutines use the store
+			}
 			for i, op := range c.Ops {
 				switch op.Kind {
 				case "retry":
@@ -661,6 +737,6 @@ func main() {
 			return false
 		},
 		ShardSize: 150,
-		Rule: "retried blocks of 0..8 deposits (mixed resources, destinations, stored statuses) through each of the five retry paths with no fault, a fault at each store-call index in turn, and fault pairs; deliveries with a fault at each call index followed by deliveries/completions that need the mutex; released proposals executed twice with success and failure in both orders; random histories of 1..40 retry/deliver/exec-ok/exec-fail operations with random fault schedules; distinct = distinct input JSON; non-trivial = at least one operation looks a proposal up in the store",
+		Rule:      "retried blocks of 0..8 deposits (mixed resources, destinations, stored statuses) through each of the five retry paths with no fault, a fault at each store-call index in turn, and fault pairs; deliveries with a fault at each call index followed by deliveries/completions that need the mutex; released proposals executed twice with success and failure in both orders; random histories of 1..40 retry/deliver/exec-ok/exec-fail operations with random fault schedules; concurrent cases: 2..8 goroutines, each with its own list of 3..10 operations on its own deposit keys (plus shared executed keys and shared non-pending keys that only retries name), its own fault schedule, on ONE PropStore over a backend that uses key and value only after a scheduling point (Gosched / channel hand-off / sleep), under GOMAXPROCS 1, 2, 4 or 16, with one BTC executor per goroutine or one for all; thorough tier: 150 more of them in a child built with the race detector; distinct = distinct input JSON; non-trivial = at least one operation looks a proposal up in the store (concurrent: at least two goroutines do)",
 	})
 }
